@@ -112,6 +112,7 @@ class P(Prop):
         (M, "TV.C05.spatial_legs", "T3b: the accumulated leg lengths are the non-negative 2D distances (square = dx^2+dy^2) for any sqrt meeting math.sqrt's contract"),
         (M, "TV.C05.spatial_distance_along_leg", "T3c: the point at fraction f of a leg is at planimetric distance f|ab| from its start, so with T3 the sample k lies at distance k ds along the original 2D polyline"),
         (M, "TV.C05.frontend", "Track.resample: feature table reset to empty (the dispatcher interpolation.resample alone leaves it as it was); explicit delta = the private routine (spatial + non-numeric step = TypeError); delta=None = the call with step (1+1e-8) D/npts"),
+        (M, "TV.C05.npts_exhibits_step", "T5: the forms that give a number of points instead of a step (npts= / factor= / track ** n / track * k; delta is None): whatever g > 0 and npts != 0, Track.resample returns the property's answer for SOME positive constant step -- spatial (3D length > 0): first fix + the N samples at ds, ..., N ds of the 2D polyline, N ds <= L2D < (N+1) ds; temporal (duration > 0): the K samples at tini+d, ..., tini+Kd <= tfin < tini+(K+1)d; which step (g D/npts, D = 3D length / duration) is `frontend` (c), outside the property"),
         (M, "TV.C05.operators", "O1: track // ref = one observation per stamp of ref in (tini, tfin], in ref's order, each the specification sample (ref empty / one observation / unsorted / outside included); track ** n = Track.resample(npts=n, temporal); track * k = Track.resample(factor=k) in spatial mode"),
         (M, "TV.C05.sample_spec", "O2: interpolation.sample(track, t) = the specification sample when t in (tini, tfin], IndexError otherwise"),
         (M, "TV.C05.synchronize_spec", "O3: synchronize(t1, t2) leaves both tracks with exactly the same timestamps: the stamps of either track strictly inside the common time range, in chronological order, each track holding its own specification sample at each; none inside = both empty"),
@@ -129,7 +130,11 @@ class P(Prop):
                 "(`delta is None` -> npts/factor with the (1+1e-8) guard, SRID read, dispatcher call, reset of the feature table), Track.__floordiv__, __pow__, "
                 "__mul__ (number); tracklib/core/track_collection.py TrackCollection.resample and __floordiv__ (temporal mode since the fix commit ea8666e); ENUCoords.distance2DTo/distanceTo as sqrt parameters; "
                 "ObsTime.toAbsTime/readUnixTime through the C03 model (stampOf)")
-    trusted = ["C05: the Rat instantiation of the model runs on inputs whose leg lengths are exact square roots (else the Float instantiation only); "
+    trusted = ["C05: for the forms that give a number of points instead of a step (npts= / factor= / track ** n / track * k) the oracle does not assume which step the "
+               "library derives: it recovers the constant step from the output (position of one observation on the original polyline; the stamps alone on a track that "
+               "does not move) and demands the property's full answer -- count included -- for that step (`spec_derived`; theorem npts_exhibits_step); the derived step "
+               "itself, (1+1e-8) x (3D length | duration) / npts, is checked by the correspondence with the model only",
+               "C05: the Rat instantiation of the model runs on inputs whose leg lengths are exact square roots (else the Float instantiation only); "
                "the stamp of an output is the C03 model applied to floor(1000 t) (Model/Resample.lean stampOf)",
                "C05: for synchronize() the oracle holds each track against the property for the request that track actually received, recorded at the door of "
                "Track.resample (which instants synchronize chooses is checked by the correspondence with the model, theorem synchronize_spec)"]
@@ -146,7 +151,8 @@ class P(Prop):
             "synchronize(t, t), TrackCollection.resample and collection // ref on 1..3 tracks; operators must leave their operand unchanged); plus a float stream (arbitrary "
             "coordinates, arbitrary ms), a history stream (abs_curv / ds / speed / heading computed or user features with those names, uid/base/no_data/zone set, "
             "copy, then in-place edits setX/setY/setZ/scale/translate/removeObs, then resample; model and oracle see the final geometry) and an error/edge stream (ds<=0, npts=0, other mode, duplicate stamps, empty track). "
-            "A call that does not return within 1 s of CPU time is reported as raising TimeoutError. non-trivial = at least 3 fixes and at least 2 expected output observations")
+            "npts / factor / ** / * are generated on tracks whose height varies (3D length > 2D length) in both modes; "
+            "A call that does not return within 6 s of CPU time is reported as raising TimeoutError. non-trivial = at least 3 fixes and at least 2 expected output observations")
     rel_tol = 1e-9
     include_unsorted = True     # stream of unsorted instant lists (former finding `unsorted-request-list`, repaired by ee0419b; theorem T1')
 
@@ -1226,6 +1232,31 @@ class P(Prop):
         return A[i] + (p - i) * (A[i + 1] - A[i])
 
     def _expected(self, case):
+        """`delta is None` (npts / factor): the property does not say which step the library derives from a number of points.
+        The expectation returned here assumes the step this tree derives, (1+1e-8) x (duration | 3D length) / npts, and is marked
+        "derived": it serves the input histogram (`describe`, `nontrivial`) and says whether the property's preconditions hold
+        (an exception is then judged); the OUTPUT of such a call is judged by `spec_derived`, for whatever constant step it exhibits."""
+        pts, mode, d = case["pts"], case["mode"], case["delta"]
+        if d is not None or mode not in (1, 2) or len(pts) < 2:
+            return self._expected_d(case, d)
+        n = case["npts"] if case["npts"] is not None else len(pts) * case["factor"]
+        if n <= 0:
+            return None
+        if mode == 2:
+            d = {"num": float(Fraction(G) * Fraction(pts[-1][3] - pts[0][3], 1000) / n)}
+        else:
+            if all(a[:2] == b[:2] for a, b in zip(pts, pts[1:])):
+                return None     # a 2D polyline of zero length exhibits no step: no demand
+            L3 = sum(math.sqrt((b[0] - a[0]) ** 2 + (b[1] - a[1]) ** 2 + (b[2] - a[2]) ** 2) for a, b in zip(pts, pts[1:]))
+            d = {"num": G * L3 / n}
+        e = self._expected_d(case, d)
+        if e is not None:
+            e["derived"] = True
+        return e
+
+    def _expected_d(self, case, d, kerr=Fraction(0)):
+        """the expectation for the explicit request `d` (`kerr`: further rounding budget of the abscissa of sample k, per unit of k:
+        the uncertainty of a step recovered from the output)"""
         pts, mode = case["pts"], case["mode"]
         if mode not in (1, 2) or len(pts) < 2:
             return None
@@ -1236,21 +1267,13 @@ class P(Prop):
         # the piecewise-linear interpolant well defined IN THE ORDER OF THE FIXES: an instant t with T[j-1] < t <= T[j] lies
         # between the fixes j-1 and j of the track as given. At an instant that IS a repeated stamp the interpolant jumps
         # (from the first to the last fix carrying that stamp): any value of the jump is admissible (validated, not compared).
-        d = case["delta"]
-        if d is not None and "other" in d:
+        if d is None:
+            return None
+        if "other" in d:
             return None         # neither a number, a list nor a Track: outside the forms the property quantifies over
         cols = [[Fraction(p[c]) for p in pts] for c in range(3)] + [[t * 1000 for t in T]]
-        exact = self.rat_ok(case)      # Python's float arithmetic on the abscissas (instants / curvilinear) is exact
+        exact = self.rat_ok(case) and case["delta"] is d      # Python's float arithmetic on the abscissas (instants / curvilinear) is exact
         scale = max([1.0] + [abs(v) for p in pts for v in p[:3]])
-        if d is None:
-            n = case["npts"] if case["npts"] is not None else len(pts) * case["factor"]
-            if n <= 0:
-                return None
-            if mode == 2:
-                d = {"num": float(Fraction(G) * (T[-1] - T[0]) / n)}
-            else:
-                L3 = sum(math.sqrt((b[0] - a[0]) ** 2 + (b[1] - a[1]) ** 2 + (b[2] - a[2]) ** 2) for a, b in zip(pts, pts[1:]))
-                d = {"num": G * L3 / n}
         num_step = True
         if mode == 2:
             V = T
@@ -1283,7 +1306,9 @@ class P(Prop):
         out = {"req": [], "opt": []}
         if mode == 1:
             out["req"].append([[float(cols[c][0]) - base[c], float(cols[c][0]) + base[c]] for c in range(4)])
-        for v in req:
+        tau0 = tau
+        for k, v in enumerate(req, 1):
+            tau = tau0 + k * kerr
             optional = False
             if not num_step:
                 # instants of a list are read from stamps exactly as the track's own: no rounding at the two ends
@@ -1376,6 +1401,14 @@ class P(Prop):
                         return None
                 return r
             return match(0, 0)
+        if exp.get("derived"):
+            return self.spec_derived(case, got)
+        return self.judge(case, got, exp)
+
+    def judge(self, case, got, exp):
+        """the observations `got` against the expectation `exp` of an explicit request"""
+        what = "temporal" if case["mode"] == 2 else "spatial"
+        want = exp["req"]
         if len(got) != len(want):
             if len(got) == len(want) + len(exp["opt"]):
                 want = want + exp["opt"]
@@ -1392,6 +1425,105 @@ class P(Prop):
             if any(b < a for a, b in zip(st, st[1:])):
                 return "spatial resampling: timestamps decrease: %s" % st
         return None
+
+    # ---- `delta is None` (npts= / factor= / track ** n / track * k): the statement fixes the result FOR A STEP; how a step is derived
+    # from a number of points is the library's choice (3D or 2D length, with or without a guard factor, ...). The output is held
+    # against the statement for the constant step it exhibits itself: the step is recovered from one output observation (its
+    # position on the original polyline) and the WHOLE output -- count included -- must then be the property's answer for that
+    # step. Which step the library derives is the business of the correspondence with the model (theorem `frontend`).
+    def spec_derived(self, case, got):
+        pts, mode = case["pts"], case["mode"]
+        what = "temporal" if mode == 2 else "spatial"
+        scale = max([1.0] + [abs(v) for p in pts for v in p[:3]])
+        tol2 = Fraction(4e-9 * scale) ** 2
+        if mode == 1 and not got:
+            return "spatial resampling by number of points returned no observation: the first fix is demanded"
+        for i, g in enumerate(got):
+            if g[3] is None:
+                return "%s sample %d carries the malformed stamp %s" % (what, i, g[4])
+        if mode == 1 and len(got) == 1:
+            # a step longer than the 2D polyline: the first fix alone
+            return self.judge(case, got, self._expected_d(case, {"num": 2 * float(self.len2d(pts)) + 1.0}))
+        if mode == 2 and not got:
+            return None         # a step longer than the duration: no instant is requested inside (tini, tfin]
+        P = [[Fraction(v) for v in p[:3]] for p in pts]
+        T = [Fraction(p[3], 1000) for p in pts]
+        cands, kerr = [], Fraction(16 * math.ulp(scale))
+
+        def project(g, a, b, dims):
+            """(fraction in [0, 1] of the closest point of the leg a-b to g, is g within tolerance of the leg) in the first `dims` coordinates"""
+            dv = [b[c] - a[c] for c in range(dims)]
+            d2 = sum(x * x for x in dv)
+            if d2 == 0:
+                return None, False
+            f = sum((Fraction(g[c]) - a[c]) * dv[c] for c in range(dims)) / d2
+            f = min(max(f, Fraction(0)), Fraction(1))
+            off = sum((Fraction(g[c]) - a[c] - f * dv[c]) ** 2 for c in range(dims))
+            return f, off <= tol2
+        if mode == 1:
+            # the abscissa of output 1 on the 2D polyline = ds (one candidate per leg it lies on: a polyline may pass there twice)
+            V = [Fraction(0)]
+            for a, b in zip(pts, pts[1:]):
+                r = Fraction(b[0] - a[0]) ** 2 + Fraction(b[1] - a[1]) ** 2
+                V.append(V[-1] + (fsqrt(r) if is_sq(r) else Fraction(math.sqrt(r))))
+            for r in range(1, len(pts)):
+                f, on = project(got[1], P[r - 1], P[r], 2)
+                if on:
+                    s = V[r - 1] + f * (V[r] - V[r - 1])
+                    if s > 0 and all(abs(s - c) > kerr for c in cands):
+                        cands.append(s)
+            if not cands:
+                return "spatial resampling by number of points: sample 1 = (%r, %r) does not lie on the original 2D polyline" % (got[1][0], got[1][1])
+        else:
+            # the instant of the last output taken on a leg along which the position changes, read from its position on that leg
+            # (among the legs its millisecond stamp allows), divided by its rank = the step
+            ulp = Fraction(math.ulp(float(T[-1])))
+            kerr = kerr + 4 * ulp
+            for k in range(len(got), 0, -1):
+                g = got[k - 1]
+                lo, hi = Fraction(g[3], 1000) - Fraction(2, 1000) - (k + 3) * ulp, Fraction(g[3], 1000) + Fraction(2, 1000) + (k + 3) * ulp
+                for r in range(1, len(pts)):
+                    if not (T[r - 1] < T[r] and T[r - 1] <= hi and lo <= T[r]):
+                        continue
+                    f, on = project(g, P[r - 1], P[r], 3)
+                    if on:
+                        t = T[r - 1] + f * (T[r] - T[r - 1])
+                        st = (t - T[0]) / k
+                        if lo <= t <= hi and st > 0 and all(abs(st - c) > kerr for c in cands):
+                            cands.append(st)
+                if cands:
+                    break
+            if not cands:
+                # no output lies on a leg along which the position changes (or none lies on the track at all): the stamps alone,
+                # T0 + k step to the millisecond for k = 1.., bound the step
+                lo, hi = None, None
+                for k, g in enumerate(got, 1):
+                    a = (Fraction(g[3] * 1000 - 1001, 10 ** 6) - (k + 3) * ulp - T[0]) / k
+                    b = (Fraction(g[3] * 1000 + 1001, 10 ** 6) + (k + 3) * ulp - T[0]) / k
+                    lo, hi = (a if lo is None else max(lo, a)), (b if hi is None else min(hi, b))
+                lo = max(lo, Fraction(1, 10 ** 9))
+                if hi < lo:
+                    return ("temporal resampling by number of points: the stamps %s are not tini + k x step (k = 1, 2, ...) to the millisecond "
+                            "for any constant step" % [g[3] for g in got][:12])
+                # among the steps the stamps allow, one that yields this number of observations, if any: K step <= duration < (K+1) step
+                K, dur = len(got), T[-1] - T[0]
+                lo2, hi2 = max(lo, dur / (K + 1)), min(hi, dur / K)
+                if lo2 <= hi2:
+                    lo, hi = lo2, hi2
+                cands, kerr = [(lo + hi) / 2], (hi - lo) / 2 + kerr
+        first = None
+        span = (T[-1] - T[0]) if mode == 2 else V[-1]
+        have = len(got) - (1 if mode == 1 else 0)
+        for st in cands[:8]:
+            if int(span / st) > have + 2:       # (far more multiples of this step than observations: not worth enumerating them)
+                first = first or "%s resampling returned %d observations, the property demands %d (for the step %.12g the output exhibits)" % (
+                    what, len(got), int(span / st) + (1 if mode == 1 else 0), float(st))
+                continue
+            msg = self.judge(case, got, self._expected_d(case, {"num": st}, kerr))
+            if msg is None:
+                return None
+            first = first or "%s (for the step %.12g the output exhibits)" % (msg, float(st))
+        return first
 
     def classify(self, case, impl_out, msg):
         return None
@@ -1458,6 +1590,10 @@ class P(Prop):
             else:
                 yield dict(case, delta={"num": rng.choice([0.5, 1.0, 2.0])}, npts=None)
                 yield dict(case, delta={"list": []}, npts=rng.choice([None, 3]))
+            if d is None:       # the forms that derive the step from a number of points, both modes, heights varied
+                yield dict(case, npts=rng.choice([1, 2, 3, 5, 9]), factor=1, mode=rng.choice([1, 2]))
+                q = [[p[0], p[1], p[2] + rng.choice([-6.0, 0.0, 2.5, 9.0]), p[3]] for p in pts]
+                yield dict(case, pts=q, npts=None, factor=rng.choice([1, 2, 3]), mode=rng.choice([1, 2]))
 
 
 # ---- tie to the source by translation (tools/py2lean.py -> lean/TracklibVerif/Gen/Interpolation.lean, regenerated on every run)
